@@ -11,7 +11,7 @@ from vlib import Check, Undecided, read_ndjson, write_ndjson, main, SEED
 LISTS = ["ridx", "rl1", "rl2", "sidx", "ss", "hp"]
 FAULTS = ["ok", "refused", "timeout", "status", "empty", "oversize", "trunc", "inv", "invown"]
 PKG = "internal/filter/filterstorage"
-FILES = ["c13_test.go"]
+FILES = ["c13_test.go", "c13crash_test.go"]
 
 # what the endpoint (or the client's error) must have recorded for a fault to count as produced for real
 REAL_PREFIX = {"ok": "full", "inv": "full", "invown": "full", "refused": "refused", "timeout": "timeout:gone",
@@ -272,7 +272,90 @@ def report(c, sg, idx, clauses, known, ms, md):
 
 
 def crash_points(c, th):
-    pass
+    """SIGKILL at the entry of file-related system calls of a refreshing child
+    process (tools/killpoints.py), then the verifier: cache file byte-complete
+    (old or new), every other cache file complete, and a restarted storage with
+    the target's server unreachable filters with the file."""
+    import killpoints
+    c.tlc_mc("AtomicFile", "AtomicFile_mc.cfg", name="atomic replace, kill anywhere")
+    c.tlc_mc("AtomicFile", "AtomicFile_sanity.cfg", expect_violation="DiskAlwaysComplete",
+             name="sanity: in-place rewrite is not atomic", count=False)
+    binp = c.go_test_binary(PKG, files=FILES)
+    root = os.path.join(c.scratch, "crash")
+    os.makedirs(root, exist_ok=True)
+    addrfile = os.path.join(c.scratch, "c13srv.addr")
+    srv = subprocess.Popen([binp, "-test.run", "^TestVerifC13CrashServer$", "-test.count=1", "-test.timeout=0"],
+                           env=c.goenv({"VERIF_C13_SRV_ADDR_FILE": addrfile}), cwd=root,
+                           stdout=subprocess.DEVNULL, stderr=subprocess.DEVNULL)
+    try:
+        for _ in range(200):
+            if os.path.exists(addrfile):
+                break
+            time.sleep(0.05)
+        else:
+            raise Undecided("the crash-point HTTP server did not start")
+        base = open(addrfile).read().strip()
+        paths = {"rl1": "rl1", "hp": "hashprefix/safe_browsing", "ridx": "filters.json", "sidx": "services.json",
+                 "ss": "general_safe_search", "rl2": "rl2"}
+        # quick: the rule-list file and the hash-prefix file, the window around the replacement;
+        # thorough: every cache file, every kill point, also with the file initially absent
+        plan = [("rl1", False, 34), ("hp", False, 22)] if not th else \
+            [(t, a, 4000) for t in ("rl1", "hp", "ridx", "sidx", "ss", "rl2") for a in (False, True)]
+        allev, total, verdicts = [], 0, []
+        for n, (tgt, absent, max_n) in enumerate(plan):
+            d = os.path.join(root, "%s-%d" % (tgt, n))
+            target = os.path.join(d, paths[tgt])
+            os.makedirs(os.path.dirname(target), exist_ok=True)
+            env = c.goenv({"VERIF_C13_DIR": d, "VERIF_C13_SRV": base, "VERIF_C13_TARGET": tgt})
+
+            def verify():
+                out = os.path.join(c.scratch, "verify.ndjson")
+                e = dict(env)
+                e["VERIF_OUT"] = out
+                if os.path.exists(out):
+                    os.remove(out)
+                p = subprocess.run([binp, "-test.run", "^TestVerifC13CrashVerify$", "-test.count=1"], env=e, cwd=d,
+                                   stdout=subprocess.PIPE, stderr=subprocess.STDOUT, text=True, timeout=120)
+                if p.returncode != 0 or not os.path.exists(out):
+                    verdicts.append({"state": "corrupt", "why": "verifier failed: " + p.stdout[-400:]})
+                    return "corrupt"
+                v = read_ndjson(out)[0]
+                verdicts.append(v)
+                return {"ver1": "old", "ver2": "new"}.get(v["state"], v["state"])
+
+            ev, kills = killpoints.enumerate_kills(
+                c, binp, "^TestVerifC13CrashChild$", verify, target, env,
+                ({"VERIF_CRASH_VERSION": "1"}, {"VERIF_CRASH_VERSION": "2"}), absent=absent, max_n=max_n)
+            for e in ev:
+                e["target"] = tgt
+            allev += ev
+            total += kills
+            at_rename = [e for e in ev if e["ev"] == "Kill" and e["at"].startswith("rename")
+                         and os.path.basename(target) + '"' in e["last"]]
+            if not at_rename:
+                raise Undecided("no kill at the rename that replaces %s (kill points %s)" % (
+                    tgt, [e["at"] for e in ev if e["ev"] == "Kill"]))
+        if total < 20:
+            raise Undecided("only %d kill points reached" % total)
+        fails = c.validate_segments("TraceAtomicFile", "TraceAtomicFile.cfg", allev,
+                                    is_reset=lambda e: e["ev"] == "Begin", max_fail=8)
+        for e in allev:
+            if e["ev"] == "Kill":
+                c.count_case(("kill", e["target"], e["n"], e["absent"], e["last"][:60]), nontrivial=True)
+        c.sample({"crash_points": total,
+                  "targets": sorted(set(e["target"] for e in allev)),
+                  "syscalls_of_one_replace": [e["raw"][:100] for e in allev if e["ev"] == "Sys"][:10],
+                  "kills": [{k: e[k] for k in ("target", "n", "state", "at", "last")} for e in allev if e["ev"] == "Kill"][-5:]})
+        for sg, idx, reason in fails:
+            e = sg[idx]
+            why = [v for v in verdicts if v.get("state") == "corrupt"][:2]
+            c.violation({"kind": "cache-file", "ev": e["ev"], "state": e.get("state", ""), "target": e.get("target", "")},
+                        "C13 cache file of %s not atomically replaced: %s at %s; verifier: %s" % (
+                            e.get("target"), reason, json.dumps(e)[:400], json.dumps(why)[:600]),
+                        {"segment": sg, "offending_index": idx, "verdicts": why})
+    finally:
+        srv.kill()
+        srv.wait()
 
 
 if __name__ == "__main__":
